@@ -1,7 +1,8 @@
 (* TeiClientFacts4.v: the budget clause of C17 seen from the client.  The thinking time the engine allots for the client's go line
    (Tei.go_limit = calcBudget of what parse_go read) is strictly less than the CLIENT's clock of the side to move and never more than
-   the time left until the CLIENT's deadline - when that deadline is at least 1 ms ahead (a nearer one is sent as `movetime 0`,
-   which is no cap: client_deadline_below_1ms_uncapped). *)
+   the time left until the CLIENT's deadline - for EVERY deadline since the repair of the client (a deadline less than 1 ms ahead is
+   refused: client_deadline_below_1ms_refused).  The code before the repair sent such a deadline as `movetime 0`, which is no cap:
+   client_deadline_uncapped_pinned. *)
 From Coq Require Import NArith ZArith List Bool Lia.
 Require Import Board Move GameOver PtnMove Playtak Tps TeiBudget Tei TeiSpec TeiFacts TeiClient TeiClientFacts TeiClientFacts2.
 Import ListNotations.
@@ -25,10 +26,10 @@ Theorem client_budget_within_clock dl tc ws (white : bool) :
   exists a, parse_go (tl ws) targs0 = Some a /\
     forall b, go_limit white a = Some b ->
       (forall t, tc = Some t -> let tm := if white then tc_white t else tc_black t in 0 < tm -> b < tm) /\
-      (forall d, dl = Some d -> 1000000 <= d -> b <= d).
+      (forall d, dl = Some d -> b <= d).
 Proof.
   intros Hd Ht Hg. destruct (client_go_line dl tc ws Hd Ht Hg) as (args & -> & _ & Hp). cbn [tl]. eexists. split; [exact Hp|].
-  destruct (go_words_some _ _ _ Hg) as [_ Hsay].
+  destruct (go_words_some _ _ _ Hg) as (_ & Hbig & Hsay).
   intros b Hb. unfold go_limit in Hb. cbn [movetime wtime btime winc binc] in Hb.
   set (mt := match dl with Some d => ms_round d | None => 0 end) in *.
   assert (Rmt : 0 <= mt < 2 ^ 63) by (subst mt; destruct dl as [d|]; [apply ms_round_range; now apply Hd|lia]).
@@ -41,27 +42,44 @@ Proof.
       destruct (budget_bounds_fixed mt (ms_round (tc_white t)) (ms_round (tc_winc t)) Rmt R1 R3) as [B1 B2]. split.
       * intros t' Et Htm. injection Et as <-. unfold sayable in S1.
         destruct (ms_round_pos (tc_white t) ltac:(lia)) as [P1 P2]. specialize (B1 P1). lia.
-      * intros d Ed Hbig. subst mt. rewrite Ed in *. destruct (ms_round_pos d Hbig) as [P1 P2]. specialize (B2 P1). lia.
+      * intros d Ed. pose proof (Hbig d Ed) as Hb1. subst mt. rewrite Ed in *. destruct (ms_round_pos d Hb1) as [P1 P2]. specialize (B2 P1). lia.
     + destruct ((0 <? mt) || (0 <? ms_round (tc_black t))) eqn:E; [|discriminate Hb]. injection Hb as <-.
       destruct (budget_bounds_fixed mt (ms_round (tc_black t)) (ms_round (tc_binc t)) Rmt R2 R4) as [B1 B2]. split.
       * intros t' Et Htm. injection Et as <-. unfold sayable in S2.
         destruct (ms_round_pos (tc_black t) ltac:(lia)) as [P1 P2]. specialize (B1 P1). lia.
-      * intros d Ed Hbig. subst mt. rewrite Ed in *. destruct (ms_round_pos d Hbig) as [P1 P2]. specialize (B2 P1). lia.
+      * intros d Ed. pose proof (Hbig d Ed) as Hb1. subst mt. rewrite Ed in *. destruct (ms_round_pos d Hb1) as [P1 P2]. specialize (B2 P1). lia.
   - assert (Hb' : (if (0 <? mt) || (0 <? 0) then Some (calc_budget_fixed mt 0 0) else None) = Some b) by (destruct white; exact Hb).
     destruct ((0 <? mt) || (0 <? 0)) eqn:E; [|discriminate Hb']. injection Hb' as <-.
     destruct (budget_bounds_fixed mt 0 0 Rmt ltac:(lia) ltac:(lia)) as [_ B2]. split; [discriminate|].
-    intros d Ed Hbig. subst mt. rewrite Ed in *. destruct (ms_round_pos d Hbig) as [P1 P2]. specialize (B2 P1). lia.
+    intros d Ed. pose proof (Hbig d Ed) as Hb1. subst mt. rewrite Ed in *. destruct (ms_round_pos d Hb1) as [P1 P2]. specialize (B2 P1). lia.
 Qed.
 
-(* the gap: a deadline less than 1 ms ahead (or already passed) puts NO cap on the engine - with no clocks, no limit at all *)
-Theorem client_deadline_below_1ms_uncapped d (white : bool) : int64 d -> d < 1000000 ->
-  exists ws a, go_words (Some d) None = Some ws /\ parse_go (tl ws) targs0 = Some a /\ movetime a = 0 /\ go_limit white a = None.
+(* ... and a context with a deadline always caps the search: the engine gets a limit, and it is at most the time left *)
+Theorem client_deadline_always_capped d tc ws (white : bool) :
+  int64 d -> (forall t, tc = Some t -> tc_int64 t) -> go_words (Some d) tc = Some ws ->
+  exists a b, parse_go (tl ws) targs0 = Some a /\ go_limit white a = Some b /\ b <= d.
 Proof.
-  intros Hi Hd.
-  assert (Hd' : forall d0, Some d = Some d0 -> int64 d0) by (intros d0 E; injection E as <-; exact Hi).
-  assert (Ht' : forall t, @None tctl = Some t -> tc_int64 t) by discriminate.
-  destruct (go_words (Some d) None) as [ws|] eqn:G; [|apply go_words_none in G; destruct G as (t & E & _); discriminate E].
-  destruct (client_go_line (Some d) None ws Hd' Ht' G) as (args & -> & _ & Hp).
-  destruct (ms_round_spec d) as [S0 _]. rewrite (S0 Hd) in Hp.
-  eexists _, _. split; [reflexivity|]. split; [exact Hp|]. split; [reflexivity|]. destruct white; reflexivity.
+  intros Hi Ht Hg.
+  assert (Hd : forall d0, Some d = Some d0 -> int64 d0) by (intros d0 E; injection E as <-; exact Hi).
+  destruct (client_budget_within_clock (Some d) tc ws white Hd Ht Hg) as (a & Hp & Hlim).
+  destruct (go_words_some _ _ _ Hg) as (_ & Hbig & _). specialize (Hbig d eq_refl).
+  destruct (client_go_line (Some d) tc ws Hd Ht Hg) as (args & E & _ & Hp2). subst ws. cbn [tl] in Hp. rewrite Hp2 in Hp. injection Hp as <-.
+  destruct (ms_round_pos d Hbig) as [P1 _].
+  destruct (go_limit white _) as [b|] eqn:G.
+  - eexists _, b. split; [exact Hp2|]. split; [exact G|]. first [exact (proj2 (Hlim b G) d eq_refl)|exact (proj2 (Hlim b eq_refl) d eq_refl)].
+  - exfalso. unfold go_limit in G. cbn [movetime wtime btime winc binc] in G.
+    replace (0 <? ms_round d) with true in G by lia. destruct white; cbn [orb] in G; discriminate G.
+Qed.
+
+(* the repair: a deadline less than 1 ms ahead (or already passed) is refused, whatever the clocks *)
+Theorem client_deadline_below_1ms_refused d tc : d < 1000000 -> go_words (Some d) tc = None.
+Proof. intros H. apply go_words_none. left. exists d. auto. Qed.
+
+(* the code before the repair: such a deadline put NO cap on the engine - with no clocks, no limit at all *)
+Theorem client_deadline_uncapped_pinned : exists d, int64 d /\ d < 1000000 /\
+  exists ws a, go_words_pinned (Some d) None = Some ws /\ parse_go (tl ws) targs0 = Some a /\ movetime a = 0 /\
+               go_limit true a = None /\ go_limit false a = None.
+Proof.
+  exists 999999. split; [unfold int64; lia|]. split; [lia|]. exists [s_go; s_movetime; [48%N]], targs0.
+  split; [vm_compute; reflexivity|]. split; [vm_compute; reflexivity|]. repeat split.
 Qed.
